@@ -370,15 +370,18 @@ Fixpoint validate_fields (E : env) (fs : list field) (c : config) : res config :
   | _, _ => Raise AssertionError
   end.
 
+(* the value a field gets from the keyword arguments, else its default *)
+Definition lookup_kw (kw : list (str * jv)) (f : field) : jv :=
+  match cfg_get (f_name f) kw with Some v => v | None => f_default f end.
+
+Definition raw_of (kw : list (str * jv)) (fs : list field) : config :=
+  map (fun f => (f_name f, lookup_kw kw f)) fs.
+
 (* MdParserConfig( **kwargs): an unknown keyword is a TypeError; then __post_init__ *)
 Definition mk_config (E : env) (fs : list field) (kwargs : list (str * jv)) : res config :=
   if negb (forallb (fun kv => match find_field (fst kv) fs with Some _ => true | None => false end) kwargs)
   then Raise TypeError
-  else validate_fields E fs
-         (map (fun f => (f_name f, match cfg_get (f_name f) kwargs with
-                                   | Some v => v
-                                   | None => f_default f
-                                   end)) fs).
+  else validate_fields E fs (raw_of kwargs fs).
 
 (* copy( **kwargs) = dc.replace(self, **kwargs): every field not named is taken from self *)
 Definition copy (E : env) (fs : list field) (c : config) (changes : list (str * jv)) : res config :=
